@@ -11,7 +11,8 @@
 EXTENDS StaticP, Json
 CONSTANTS MaxSegs, EmitCases,
           Dev    \* "NOBOUNDARY": negative control - the segment-boundary test after the prefix is missing
-Names == {"f", "d", "e", "g", "index", "pfx", "pfxx", "secret", "..", ".", ""}
+\* "pfxf" / "pfxd": the prefix followed by exactly the one-character name of an entry of the root
+Names == {"f", "d", "e", "g", "index", "pfx", "pfxx", "pfxf", "pfxd", "secret", "..", ".", ""}
 Methods == {"GET", "HEAD", "POST"}
 Prefixes == { <<>>, <<"pfx">> }
 VARIABLES method, segs, prefix
@@ -22,7 +23,8 @@ Next == /\ Len(segs) < MaxSegs /\ \E n \in Names : segs' = Append(segs, n)
 Spec == Init /\ [][Next]_vars
 
 \* strings.HasPrefix(URL.Path, "/pfx"): the first segment merely has to START with the prefix text
-StrPrefix(seg) == seg \in {"pfx", "pfxx"}
+Tail3(seg) == CASE seg = "pfxf" -> "f" [] seg = "pfxd" -> "d" [] seg = "pfxx" -> "x" [] OTHER -> ""
+StrPrefix(seg) == seg \in {"pfx", "pfxx", "pfxf", "pfxd"}
 I_Static ==
   IF method \notin {"GET", "HEAD"} THEN Silent
   ELSE LET strip ==
@@ -30,7 +32,8 @@ I_Static ==
              ELSE IF Len(segs) = 0 \/ ~StrPrefix(segs[1]) THEN [ok |-> FALSE, rest |-> <<>>]
              \* file = file[len(prefix):]; if file != "" && file[0] != '/' { return }
              ELSE IF segs[1] # "pfx" /\ "NOBOUNDARY" \notin Dev THEN [ok |-> FALSE, rest |-> <<>>]
-             ELSE [ok |-> TRUE, rest |-> SubSeq(segs, 2, Len(segs))]
+             \* without the boundary test the remainder of the look-alike becomes the first name of the file path
+             ELSE [ok |-> TRUE, rest |-> (IF segs[1] = "pfx" THEN <<>> ELSE <<Tail3(segs[1])>>) \o SubSeq(segs, 2, Len(segs))]
        IN IF ~strip.ok THEN Silent
           ELSE LET tgt == Resolve(strip.rest, 1, <<>>)              \* http.Dir.Open: Clean("/" + name) below the root
                    what == Lookup(tgt)
